@@ -1,0 +1,166 @@
+//go:build verif
+
+// Contracts for the deductive verifier in /verif (gvc). Comment-only: compiled only under the build
+// tag `verif`, contains no code.
+package indexing
+
+// The packages whose annotations an index is built from: the package of the pass with its own annotations, then
+// every direct import for which the driver delivers a fact of the analyzer's fact type, with the delivered value
+// (hasFact / factAnn: assumed driver contract, /verif/contracts/lib/analysis.spec).
+//@ func iterOverPackages
+//@   props C06 C10 C01 C02 C03 C04
+//@   requires pass != nil && packageAnnotations != nil
+//@   ensures pass.Pkg == nil ==> len(result) == 0
+//@   ensures pass.Pkg != nil ==> len(result) >= 1 && result[0].fst == pass.Pkg && result[0].snd == packageAnnotations
+//@   ensures forall k int :: 1 <= k && k < len(result) ==> result[k].snd != nil && fresh(result[k].snd) && result[k].snd != packageAnnotations
+//@   ensures pass.ImportPackageFact == nil ==> len(result) <= 1
+//@   let tag = createdTag(nil)
+//@   let imports = pass.Pkg.Imports()
+//@   ensures forall k int :: 1 <= k && k < len(result) ==> (exists j int :: 0 <= j && j < len(imports) && result[k].fst == imports[j] && hasFact(pass, imports[j], tag) && *result[k].snd == factAnn(pass, imports[j], tag))
+//@   ensures pass.Pkg != nil && pass.ImportPackageFact != nil ==> (forall j int :: 0 <= j && j < len(imports) && hasFact(pass, imports[j], tag) ==> (exists k int :: 1 <= k && k < len(result) && result[k].fst == imports[j]))
+//@   assigns nothing
+//@   loop 1 invariant forall k int :: 1 <= k && k < len($yielded) ==> (exists j int :: 0 <= j && j < $i && $yielded[k].fst == imports[j] && hasFact(pass, imports[j], tag) && *$yielded[k].snd == factAnn(pass, imports[j], tag))
+//@   loop 1 invariant forall j int :: 0 <= j && j < $i && hasFact(pass, imports[j], tag) ==> (exists k int :: 1 <= k && k < len($yielded) && $yielded[k].fst == imports[j])
+//@   loop 1 invariant !$stopped && len($yielded) >= 1 && $yielded[0].fst == pass.Pkg && $yielded[0].snd == packageAnnotations
+//@   loop 1 invariant forall k int :: 1 <= k && k < len($yielded) ==> $yielded[k].snd != nil && fresh($yielded[k].snd) && $yielded[k].snd != packageAnnotations
+
+// ---- the indices: union over {this package} and {direct imports with a delivered fact} ------------------------
+// annotation lists as relations
+//@ macro func immHas(a PackageAnnotations, t string) bool = exists x int :: 0 <= x && x < len(a.ImmutableAnnotations) && a.ImmutableAnnotations[x].OnType == t
+// (p, t) is declared @immutable by the package of the pass or by a direct import with a fact
+//@ macro func immDeclared(pass *analysis.Pass, local *annotations.PackageAnnotations, p string, t string) bool = (pass.Pkg != nil && p == pass.Pkg.Path() && immHas(*local, t)) || (pass.Pkg != nil && pass.ImportPackageFact != nil && (exists j int :: 0 <= j && j < len(pass.Pkg.Imports()) && hasFact(pass, pass.Pkg.Imports()[j], createdTag(nil)) && pass.Pkg.Imports()[j].Path() == p && immHas(factAnn(pass, pass.Pkg.Imports()[j], createdTag(nil)), t)))
+
+//@ func BuildImmutableTypesIndex
+//@   props C06 C01 C09 C10
+//@   requires pass != nil && packageAnnotations != nil
+//@   ensures tmWF(result)
+//@   ensures forall p string, t string :: tmHas(result, p, t) <==> immDeclared(pass, packageAnnotations, p, t)
+//@   assigns nothing
+//@   loop 1 frame
+//@   loop 2 frame
+//@   loop 1 invariant tmWF(result) && fresh(result) && (forall p string :: indom(result, p) ==> fresh(result[p]))
+//@   loop 1 invariant forall p string, t string :: tmHas(result, p, t) <==> (exists k int :: 0 <= k && k < $i && $seq[k].fst.Path() == p && immHas(*$seq[k].snd, t))
+//@   loop 2 invariant tmWF(result) && fresh(result) && (forall p string :: indom(result, p) ==> fresh(result[p]))
+//@   loop 2 invariant forall p string, t string :: tmHas(result, p, t) <==> ((exists k int :: 0 <= k && k < $i1 && $seq1[k].fst.Path() == p && immHas(*$seq1[k].snd, t)) || (p == pkg.Path() && (exists x int :: 0 <= x && x < $i && ann.ImmutableAnnotations[x].OnType == t)))
+
+// (p, t, x): x is listed as a constructor of type t by package p (this package or a direct import with a fact)
+//@ macro func ctorHas(a PackageAnnotations, t string, x string) bool = exists i int :: 0 <= i && i < len(a.ConstructorAnnotations) && a.ConstructorAnnotations[i].OnType == t && contains(a.ConstructorAnnotations[i].ConstructorNames, x)
+//@ macro func mutHas(a PackageAnnotations, t string, x string) bool = exists i int :: 0 <= i && i < len(a.MutableAnnotations) && a.MutableAnnotations[i].OnType == t && a.MutableAnnotations[i].FieldName == x
+//@ macro func toTypeHas(a PackageAnnotations, t string) bool = exists i int :: 0 <= i && i < len(a.TestonlyAnnotations) && a.TestonlyAnnotations[i].Kind == annotations.TestOnlyOnType && a.TestonlyAnnotations[i].ObjectName == t
+//@ macro func toFuncHas(a PackageAnnotations, t string, x string) bool = exists i int :: 0 <= i && i < len(a.TestonlyAnnotations) && a.TestonlyAnnotations[i].Kind == annotations.TestOnlyOnFunc && a.TestonlyAnnotations[i].ObjectName == t && x == t
+//@ macro func toMethHas(a PackageAnnotations, t string, x string) bool = exists i int :: 0 <= i && i < len(a.TestonlyAnnotations) && a.TestonlyAnnotations[i].Kind == annotations.TestOnlyOnMethod && a.TestonlyAnnotations[i].ReceiverType == t && a.TestonlyAnnotations[i].ObjectName == x
+
+// "declared by this package or by a direct import with a fact", for a relation R(annotations, ...)
+//@ macro func srcLocal(pass *analysis.Pass, p string) bool = pass.Pkg != nil && p == pass.Pkg.Path()
+//@ macro func srcImport(pass *analysis.Pass, j int, p string) bool = pass.Pkg != nil && pass.ImportPackageFact != nil && 0 <= j && j < len(pass.Pkg.Imports()) && hasFact(pass, pass.Pkg.Imports()[j], createdTag(nil)) && pass.Pkg.Imports()[j].Path() == p
+//@ macro func impAnn(pass *analysis.Pass, j int) PackageAnnotations = factAnn(pass, pass.Pkg.Imports()[j], createdTag(nil))
+
+//@ func BuildConstructorIndex
+//@   props C06 C01 C02 C09 C10
+//@   requires pass != nil && packageAnnotations != nil
+//@   ensures tarWF(result)
+//@   ensures forall p string, t string, x string :: contains(tarList(result, p, t), x) <==> ((srcLocal(pass, p) && ctorHas(*packageAnnotations, t, x)) || (exists j int :: srcImport(pass, j, p) && ctorHas(impAnn(pass, j), t, x)))
+//@   assigns nothing
+//@   loop 1 frame
+//@   loop 2 frame
+//@   loop 3 frame
+//@   loop 1 invariant tarWF(result) && fresh(result) && (forall p string :: indom(result, p) ==> fresh(result[p]))
+//@   loop 1 invariant forall p string, t string, x string :: contains(tarList(result, p, t), x) <==> (exists k int :: 0 <= k && k < $i && $seq[k].fst.Path() == p && ctorHas(*$seq[k].snd, t, x))
+//@   loop 2 invariant tarWF(result) && fresh(result) && (forall p string :: indom(result, p) ==> fresh(result[p]))
+//@   loop 2 invariant forall p string, t string, x string :: contains(tarList(result, p, t), x) <==> ((exists k int :: 0 <= k && k < $i1 && $seq1[k].fst.Path() == p && ctorHas(*$seq1[k].snd, t, x)) || (p == pkg.Path() && (exists i int :: 0 <= i && i < $i && ann.ConstructorAnnotations[i].OnType == t && contains(ann.ConstructorAnnotations[i].ConstructorNames, x))))
+//@   loop 3 invariant tarWF(result) && fresh(result) && (forall p string :: indom(result, p) ==> fresh(result[p]))
+//@   loop 3 invariant forall p string, t string, x string :: contains(tarList(result, p, t), x) <==> ((exists k int :: 0 <= k && k < $i1 && $seq1[k].fst.Path() == p && ctorHas(*$seq1[k].snd, t, x)) || (p == pkg.Path() && (exists i int :: 0 <= i && i < $i2 && ann.ConstructorAnnotations[i].OnType == t && contains(ann.ConstructorAnnotations[i].ConstructorNames, x))) || (p == pkg.Path() && t == annot.OnType && (exists n int :: 0 <= n && n < $i && annot.ConstructorNames[n] == x)))
+
+//@ func BuildMutableFieldsIndex
+//@   props C06 C01 C09 C10
+//@   requires pass != nil && packageAnnotations != nil
+//@   ensures tarWF(result)
+//@   ensures forall p string, t string, x string :: contains(tarList(result, p, t), x) <==> ((srcLocal(pass, p) && mutHas(*packageAnnotations, t, x)) || (exists j int :: srcImport(pass, j, p) && mutHas(impAnn(pass, j), t, x)))
+//@   assigns nothing
+//@   loop 1 frame
+//@   loop 2 frame
+//@   loop 1 invariant tarWF(result) && fresh(result) && (forall p string :: indom(result, p) ==> fresh(result[p]))
+//@   loop 1 invariant forall p string, t string, x string :: contains(tarList(result, p, t), x) <==> (exists k int :: 0 <= k && k < $i && $seq[k].fst.Path() == p && mutHas(*$seq[k].snd, t, x))
+//@   loop 2 invariant tarWF(result) && fresh(result) && (forall p string :: indom(result, p) ==> fresh(result[p]))
+//@   loop 2 invariant forall p string, t string, x string :: contains(tarList(result, p, t), x) <==> ((exists k int :: 0 <= k && k < $i1 && $seq1[k].fst.Path() == p && mutHas(*$seq1[k].snd, t, x)) || (p == pkg.Path() && (exists i int :: 0 <= i && i < $i && ann.MutableAnnotations[i].OnType == t && ann.MutableAnnotations[i].FieldName == x)))
+
+//@ func BuildTestOnlyFuncsIndex
+//@   props C06 C03 C09 C10
+//@   requires pass != nil && packageAnnotations != nil
+//@   ensures tarWF(result)
+//@   ensures forall p string, t string, x string :: contains(tarList(result, p, t), x) <==> ((srcLocal(pass, p) && toFuncHas(*packageAnnotations, t, x)) || (exists j int :: srcImport(pass, j, p) && toFuncHas(impAnn(pass, j), t, x)))
+//@   assigns nothing
+//@   loop 1 frame
+//@   loop 2 frame
+//@   loop 1 invariant tarWF(result) && fresh(result) && (forall p string :: indom(result, p) ==> fresh(result[p]))
+//@   loop 1 invariant forall p string, t string, x string :: contains(tarList(result, p, t), x) <==> (exists k int :: 0 <= k && k < $i && $seq[k].fst.Path() == p && toFuncHas(*$seq[k].snd, t, x))
+//@   loop 2 invariant tarWF(result) && fresh(result) && (forall p string :: indom(result, p) ==> fresh(result[p]))
+//@   loop 2 invariant forall p string, t string, x string :: contains(tarList(result, p, t), x) <==> ((exists k int :: 0 <= k && k < $i1 && $seq1[k].fst.Path() == p && toFuncHas(*$seq1[k].snd, t, x)) || (p == pkg.Path() && (exists i int :: 0 <= i && i < $i && ann.TestonlyAnnotations[i].Kind == annotations.TestOnlyOnFunc && ann.TestonlyAnnotations[i].ObjectName == t && x == t)))
+
+//@ func BuildTestOnlyMethodsIndex
+//@   props C06 C03 C09 C10
+//@   requires pass != nil && packageAnnotations != nil
+//@   ensures tarWF(result)
+//@   ensures forall p string, t string, x string :: contains(tarList(result, p, t), x) <==> ((srcLocal(pass, p) && toMethHas(*packageAnnotations, t, x)) || (exists j int :: srcImport(pass, j, p) && toMethHas(impAnn(pass, j), t, x)))
+//@   assigns nothing
+//@   loop 1 frame
+//@   loop 2 frame
+//@   loop 1 invariant tarWF(result) && fresh(result) && (forall p string :: indom(result, p) ==> fresh(result[p]))
+//@   loop 1 invariant forall p string, t string, x string :: contains(tarList(result, p, t), x) <==> (exists k int :: 0 <= k && k < $i && $seq[k].fst.Path() == p && toMethHas(*$seq[k].snd, t, x))
+//@   loop 2 invariant tarWF(result) && fresh(result) && (forall p string :: indom(result, p) ==> fresh(result[p]))
+//@   loop 2 invariant forall p string, t string, x string :: contains(tarList(result, p, t), x) <==> ((exists k int :: 0 <= k && k < $i1 && $seq1[k].fst.Path() == p && toMethHas(*$seq1[k].snd, t, x)) || (p == pkg.Path() && (exists i int :: 0 <= i && i < $i && ann.TestonlyAnnotations[i].Kind == annotations.TestOnlyOnMethod && ann.TestonlyAnnotations[i].ReceiverType == t && ann.TestonlyAnnotations[i].ObjectName == x)))
+
+//@ func BuildTestOnlyTypesIndex
+//@   props C06 C03 C09 C10
+//@   requires pass != nil && packageAnnotations != nil
+//@   ensures tmWF(result)
+//@   ensures forall p string, t string :: tmHas(result, p, t) <==> ((srcLocal(pass, p) && toTypeHas(*packageAnnotations, t)) || (exists j int :: srcImport(pass, j, p) && toTypeHas(impAnn(pass, j), t)))
+//@   assigns nothing
+//@   loop 1 frame
+//@   loop 2 frame
+//@   loop 1 invariant tmWF(result) && fresh(result) && (forall p string :: indom(result, p) ==> fresh(result[p]))
+//@   loop 1 invariant forall p string, t string :: tmHas(result, p, t) <==> (exists k int :: 0 <= k && k < $i && $seq[k].fst.Path() == p && toTypeHas(*$seq[k].snd, t))
+//@   loop 2 invariant tmWF(result) && fresh(result) && (forall p string :: indom(result, p) ==> fresh(result[p]))
+//@   loop 2 invariant forall p string, t string :: tmHas(result, p, t) <==> ((exists k int :: 0 <= k && k < $i1 && $seq1[k].fst.Path() == p && toTypeHas(*$seq1[k].snd, t)) || (p == pkg.Path() && (exists i int :: 0 <= i && i < $i && ann.TestonlyAnnotations[i].Kind == annotations.TestOnlyOnType && ann.TestonlyAnnotations[i].ObjectName == t)))
+
+// @packageonly allow-lists as relations: x is allowed for type t / function t / method t.m by some annotation line
+//@ macro func poTypeHas(a PackageAnnotations, t string, x string) bool = exists i int :: 0 <= i && i < len(a.PackageOnlyAnnotations) && a.PackageOnlyAnnotations[i].Kind == annotations.TestOnlyOnType && a.PackageOnlyAnnotations[i].ObjectName == t && contains(a.PackageOnlyAnnotations[i].AllowedPackages, x)
+//@ macro func poFuncHas(a PackageAnnotations, t string, x string) bool = exists i int :: 0 <= i && i < len(a.PackageOnlyAnnotations) && a.PackageOnlyAnnotations[i].Kind == annotations.TestOnlyOnFunc && a.PackageOnlyAnnotations[i].ObjectName == t && contains(a.PackageOnlyAnnotations[i].AllowedPackages, x)
+//@ macro func poMethHas(a PackageAnnotations, t string, m string, x string) bool = exists i int :: 0 <= i && i < len(a.PackageOnlyAnnotations) && a.PackageOnlyAnnotations[i].Kind == annotations.TestOnlyOnMethod && a.PackageOnlyAnnotations[i].ReceiverType == t && a.PackageOnlyAnnotations[i].ObjectName == m && contains(a.PackageOnlyAnnotations[i].AllowedPackages, x)
+
+// The @packageonly index: every allow-list of the index is the union of the lists of all annotation lines on that item,
+// over this package and the direct imports with a fact.
+//@ func BuildPackageOnlyIndex
+//@   props C06 C04 C09 C10
+//@   requires pass != nil && packageAnnotations != nil
+//@   fresh
+//@   ensures result != nil && amWF(result)
+//@   ensures forall p string, t string, x string :: contains(amTypeAtt(result, p, t), x) <==> ((srcLocal(pass, p) && poTypeHas(*packageAnnotations, t, x)) || (exists j int :: srcImport(pass, j, p) && poTypeHas(impAnn(pass, j), t, x)))
+//@   ensures forall p string, t string, x string :: contains(amFuncAtt(result, p, t), x) <==> ((srcLocal(pass, p) && poFuncHas(*packageAnnotations, t, x)) || (exists j int :: srcImport(pass, j, p) && poFuncHas(impAnn(pass, j), t, x)))
+//@   ensures forall p string, t string, m string, x string :: contains(amMethAtt(result, p, t, m), x) <==> ((srcLocal(pass, p) && poMethHas(*packageAnnotations, t, m, x)) || (exists j int :: srcImport(pass, j, p) && poMethHas(impAnn(pass, j), t, m, x)))
+//@   assigns nothing
+//@   loop 1 frame
+//@   loop 2 frame
+//@   loop 3 frame
+//@   loop 4 frame
+//@   loop 5 frame
+//@   loop 1 invariant amWF(result) && fresh(result) && (result.packageAttachments != nil ==> fresh(result.packageAttachments)) && (forall p string :: (amTA(result, p) != nil ==> fresh(amTA(result, p))) && (amFA(result, p) != nil ==> fresh(amFA(result, p)))) && (forall p string, t string :: (amMA(result, p, t) != nil ==> fresh(amMA(result, p, t))) && amFL(result, p, t) == nil)
+//@   loop 1 invariant forall p string, t string, x string :: contains(amTypeAtt(result, p, t), x) <==> (exists k int :: 0 <= k && k < $i && $seq[k].fst.Path() == p && poTypeHas(*$seq[k].snd, t, x))
+//@   loop 1 invariant forall p string, t string, x string :: contains(amFuncAtt(result, p, t), x) <==> (exists k int :: 0 <= k && k < $i && $seq[k].fst.Path() == p && poFuncHas(*$seq[k].snd, t, x))
+//@   loop 1 invariant forall p string, t string, m string, x string :: contains(amMethAtt(result, p, t, m), x) <==> (exists k int :: 0 <= k && k < $i && $seq[k].fst.Path() == p && poMethHas(*$seq[k].snd, t, m, x))
+//@   loop 2 invariant amWF(result) && fresh(result) && (result.packageAttachments != nil ==> fresh(result.packageAttachments)) && (forall p string :: (amTA(result, p) != nil ==> fresh(amTA(result, p))) && (amFA(result, p) != nil ==> fresh(amFA(result, p)))) && (forall p string, t string :: (amMA(result, p, t) != nil ==> fresh(amMA(result, p, t))) && amFL(result, p, t) == nil) && pkgPath == pkg.Path()
+//@   loop 2 invariant forall p string, t string, x string :: contains(amTypeAtt(result, p, t), x) <==> ((exists k int :: 0 <= k && k < $i1 && $seq1[k].fst.Path() == p && poTypeHas(*$seq1[k].snd, t, x)) || (p == pkgPath && (exists i int :: 0 <= i && i < $i && ann.PackageOnlyAnnotations[i].Kind == annotations.TestOnlyOnType && ann.PackageOnlyAnnotations[i].ObjectName == t && contains(ann.PackageOnlyAnnotations[i].AllowedPackages, x))))
+//@   loop 2 invariant forall p string, t string, x string :: contains(amFuncAtt(result, p, t), x) <==> ((exists k int :: 0 <= k && k < $i1 && $seq1[k].fst.Path() == p && poFuncHas(*$seq1[k].snd, t, x)) || (p == pkgPath && (exists i int :: 0 <= i && i < $i && ann.PackageOnlyAnnotations[i].Kind == annotations.TestOnlyOnFunc && ann.PackageOnlyAnnotations[i].ObjectName == t && contains(ann.PackageOnlyAnnotations[i].AllowedPackages, x))))
+//@   loop 2 invariant forall p string, t string, m string, x string :: contains(amMethAtt(result, p, t, m), x) <==> ((exists k int :: 0 <= k && k < $i1 && $seq1[k].fst.Path() == p && poMethHas(*$seq1[k].snd, t, m, x)) || (p == pkgPath && (exists i int :: 0 <= i && i < $i && ann.PackageOnlyAnnotations[i].Kind == annotations.TestOnlyOnMethod && ann.PackageOnlyAnnotations[i].ReceiverType == t && ann.PackageOnlyAnnotations[i].ObjectName == m && contains(ann.PackageOnlyAnnotations[i].AllowedPackages, x))))
+//@   loop 3 invariant amWF(result) && fresh(result) && (result.packageAttachments != nil ==> fresh(result.packageAttachments)) && (forall p string :: (amTA(result, p) != nil ==> fresh(amTA(result, p))) && (amFA(result, p) != nil ==> fresh(amFA(result, p)))) && (forall p string, t string :: (amMA(result, p, t) != nil ==> fresh(amMA(result, p, t))) && amFL(result, p, t) == nil) && pkgPath == pkg.Path()
+//@   loop 3 invariant forall p string, t string, x string :: contains(amTypeAtt(result, p, t), x) <==> ((exists k int :: 0 <= k && k < $i1 && $seq1[k].fst.Path() == p && poTypeHas(*$seq1[k].snd, t, x)) || (p == pkgPath && (exists i int :: 0 <= i && i < $i2 && ann.PackageOnlyAnnotations[i].Kind == annotations.TestOnlyOnType && ann.PackageOnlyAnnotations[i].ObjectName == t && contains(ann.PackageOnlyAnnotations[i].AllowedPackages, x))) || (p == pkgPath && t == annot.ObjectName && (exists n int :: 0 <= n && n < $i && annot.AllowedPackages[n] == x)))
+//@   loop 3 invariant forall p string, t string, x string :: contains(amFuncAtt(result, p, t), x) <==> ((exists k int :: 0 <= k && k < $i1 && $seq1[k].fst.Path() == p && poFuncHas(*$seq1[k].snd, t, x)) || (p == pkgPath && (exists i int :: 0 <= i && i < $i2 && ann.PackageOnlyAnnotations[i].Kind == annotations.TestOnlyOnFunc && ann.PackageOnlyAnnotations[i].ObjectName == t && contains(ann.PackageOnlyAnnotations[i].AllowedPackages, x))))
+//@   loop 3 invariant forall p string, t string, m string, x string :: contains(amMethAtt(result, p, t, m), x) <==> ((exists k int :: 0 <= k && k < $i1 && $seq1[k].fst.Path() == p && poMethHas(*$seq1[k].snd, t, m, x)) || (p == pkgPath && (exists i int :: 0 <= i && i < $i2 && ann.PackageOnlyAnnotations[i].Kind == annotations.TestOnlyOnMethod && ann.PackageOnlyAnnotations[i].ReceiverType == t && ann.PackageOnlyAnnotations[i].ObjectName == m && contains(ann.PackageOnlyAnnotations[i].AllowedPackages, x))))
+//@   loop 4 invariant amWF(result) && fresh(result) && (result.packageAttachments != nil ==> fresh(result.packageAttachments)) && (forall p string :: (amTA(result, p) != nil ==> fresh(amTA(result, p))) && (amFA(result, p) != nil ==> fresh(amFA(result, p)))) && (forall p string, t string :: (amMA(result, p, t) != nil ==> fresh(amMA(result, p, t))) && amFL(result, p, t) == nil) && pkgPath == pkg.Path()
+//@   loop 4 invariant forall p string, t string, x string :: contains(amTypeAtt(result, p, t), x) <==> ((exists k int :: 0 <= k && k < $i1 && $seq1[k].fst.Path() == p && poTypeHas(*$seq1[k].snd, t, x)) || (p == pkgPath && (exists i int :: 0 <= i && i < $i2 && ann.PackageOnlyAnnotations[i].Kind == annotations.TestOnlyOnType && ann.PackageOnlyAnnotations[i].ObjectName == t && contains(ann.PackageOnlyAnnotations[i].AllowedPackages, x))))
+//@   loop 4 invariant forall p string, t string, x string :: contains(amFuncAtt(result, p, t), x) <==> ((exists k int :: 0 <= k && k < $i1 && $seq1[k].fst.Path() == p && poFuncHas(*$seq1[k].snd, t, x)) || (p == pkgPath && (exists i int :: 0 <= i && i < $i2 && ann.PackageOnlyAnnotations[i].Kind == annotations.TestOnlyOnFunc && ann.PackageOnlyAnnotations[i].ObjectName == t && contains(ann.PackageOnlyAnnotations[i].AllowedPackages, x))) || (p == pkgPath && t == annot.ObjectName && (exists n int :: 0 <= n && n < $i && annot.AllowedPackages[n] == x)))
+//@   loop 4 invariant forall p string, t string, m string, x string :: contains(amMethAtt(result, p, t, m), x) <==> ((exists k int :: 0 <= k && k < $i1 && $seq1[k].fst.Path() == p && poMethHas(*$seq1[k].snd, t, m, x)) || (p == pkgPath && (exists i int :: 0 <= i && i < $i2 && ann.PackageOnlyAnnotations[i].Kind == annotations.TestOnlyOnMethod && ann.PackageOnlyAnnotations[i].ReceiverType == t && ann.PackageOnlyAnnotations[i].ObjectName == m && contains(ann.PackageOnlyAnnotations[i].AllowedPackages, x))))
+//@   loop 5 invariant amWF(result) && fresh(result) && (result.packageAttachments != nil ==> fresh(result.packageAttachments)) && (forall p string :: (amTA(result, p) != nil ==> fresh(amTA(result, p))) && (amFA(result, p) != nil ==> fresh(amFA(result, p)))) && (forall p string, t string :: (amMA(result, p, t) != nil ==> fresh(amMA(result, p, t))) && amFL(result, p, t) == nil) && pkgPath == pkg.Path()
+//@   loop 5 invariant forall p string, t string, x string :: contains(amTypeAtt(result, p, t), x) <==> ((exists k int :: 0 <= k && k < $i1 && $seq1[k].fst.Path() == p && poTypeHas(*$seq1[k].snd, t, x)) || (p == pkgPath && (exists i int :: 0 <= i && i < $i2 && ann.PackageOnlyAnnotations[i].Kind == annotations.TestOnlyOnType && ann.PackageOnlyAnnotations[i].ObjectName == t && contains(ann.PackageOnlyAnnotations[i].AllowedPackages, x))))
+//@   loop 5 invariant forall p string, t string, x string :: contains(amFuncAtt(result, p, t), x) <==> ((exists k int :: 0 <= k && k < $i1 && $seq1[k].fst.Path() == p && poFuncHas(*$seq1[k].snd, t, x)) || (p == pkgPath && (exists i int :: 0 <= i && i < $i2 && ann.PackageOnlyAnnotations[i].Kind == annotations.TestOnlyOnFunc && ann.PackageOnlyAnnotations[i].ObjectName == t && contains(ann.PackageOnlyAnnotations[i].AllowedPackages, x))))
+//@   loop 5 invariant forall p string, t string, m string, x string :: contains(amMethAtt(result, p, t, m), x) <==> ((exists k int :: 0 <= k && k < $i1 && $seq1[k].fst.Path() == p && poMethHas(*$seq1[k].snd, t, m, x)) || (p == pkgPath && (exists i int :: 0 <= i && i < $i2 && ann.PackageOnlyAnnotations[i].Kind == annotations.TestOnlyOnMethod && ann.PackageOnlyAnnotations[i].ReceiverType == t && ann.PackageOnlyAnnotations[i].ObjectName == m && contains(ann.PackageOnlyAnnotations[i].AllowedPackages, x))) || (p == pkgPath && t == annot.ReceiverType && m == annot.ObjectName && (exists n int :: 0 <= n && n < $i && annot.AllowedPackages[n] == x)))
